@@ -17,6 +17,8 @@ RULE = ("case = (class in {AsyncFIFO, AsyncFIFOBuffered}, width 0..8, requested 
 ASSUMPTIONS = [
     "The Python simulator is the execution model: zero-delay, no metastability or bit skew (Gray coding is not observable).",
     "Inputs change only between clock edges.",
+    "Reset of the reader side (arbitrary instants and lengths, also from power-up on): the queue is not affected at all "
+    "(lib.fifo: 'When the read domain is reset, data remains in the FIFO').",
     "Crash of the writer side (a seeded subset of runs, resettable write domains only): the write domain's reset is asserted at "
     "an arbitrary instant and held over a write-clock edge, then at least 4 read-clock edges, then at least 4 write-clock edges "
     "(the documentation does not say how long a reset must last; a CDC reset shorter than a few cycles of both clocks is left "
@@ -33,7 +35,7 @@ COMPONENTS = {"real": ["amaranth.lib.fifo.AsyncFIFO", "amaranth.lib.fifo.AsyncFI
                        "amaranth.lib.cdc.AsyncFFSynchronizer", "amaranth.lib.memory.Memory", "amaranth.hdl elaboration",
                        "amaranth.sim"],
               "stub": ["PermSet scheduler seam", "clock driver (bus wrapper)", "global deque monitor"]}
-EXPECTED_PROBES = ("coincide", "stall", "ratio", "overrun", "underrun", "full", "wrap", "elaborated", "reset", "reset_while_holding",
+EXPECTED_PROBES = ("coincide", "stall", "ratio", "overrun", "underrun", "full", "wrap", "elaborated", "read_reset", "read_reset_while_holding", "reset", "reset_while_holding",
                    "reset_with_buffered_head")
 
 
@@ -73,6 +75,9 @@ def gen_case(seed, tier):
     eff_depth = max(1, depth)
     pw, pr = wl.choice([(0.5, 0.5), (0.9, 0.2), (0.2, 0.9), (1.0, 1.0), (0.7, 0.7), (1.0, 0.0), (0.0, 1.0)])
     p_reset = fl.choice([0, 0, 0.1, 0.3]) if not config["w_reset_less"] else 0
+    p_rreset = fl.choice([0, 0, 0.1, 0.3])
+    if fl.random() < 0.1:
+        steps.append({"k": "rrst", "l": 1})       # the reader is held in reset from power-up on
     while len(steps) < nsteps:
         if p_reset and steps and fl.random() < p_reset:
             # crash of the writer side: the write domain's reset, asserted at an arbitrary instant, held while both clocks
@@ -91,6 +96,18 @@ def gen_case(seed, tier):
             for _ in range(fl.choice([0, 0, 2, 5])):
                 steps.append(_toggle_steps(wl, levels, [wl.choice(["write", "read"])]))
             steps.append({"k": "rst", "l": 0})
+        if p_rreset and steps and fl.random() < p_rreset:
+            # the reader is reset (or still held in reset at power-up) while the writer keeps going: 'When the read domain is
+            # reset, data remains in the FIFO'
+            steps.append({"k": "rrst", "l": 1})
+            for _ in range(fl.randint(1, 12)):
+                if wl.random() < 0.4:
+                    counter += 1
+                    steps.append({"k": "set", "v": {"w_en": int(wl.random() < pw), "w_data": counter & mask,
+                                                   "r_en": int(wl.random() < pr * 0.5)}})
+                r = wl.random()
+                steps.append(_toggle_steps(wl, levels, ["write", "read"] if r < 0.2 else (["write"] if r < 0.5 else ["read"])))
+            steps.append({"k": "rrst", "l": 0})
         prof = fl.choice(enabled)
         length = wl.randint(4, 40)
         if wl.random() < 0.25:
@@ -153,7 +170,7 @@ def run_case(case):
     def body(drv):
         stats["probes"]["elaborated"] += 1
         dq = deque()
-        R = {"rst": 0, "window": False, "reads_since": 0, "post_r": 0, "post_w": 0, "doomed": 0, "r_rst_seen": False}
+        R = {"rst": 0, "window": False, "reads_since": 0, "post_r": 0, "post_w": 0, "doomed": 0, "r_rst_seen": False, "rrst": 0, "rrst_during_episode": False}
         buffered = config["cls"] == "AsyncFIFOBuffered"
         inp = {"w_en": 0, "w_data": 0, "r_en": 0}
         sigs = {"w_en": dut.w_en, "w_data": dut.w_data, "r_en": dut.r_en}
@@ -182,7 +199,18 @@ def run_case(case):
         def do_step(i, st, obs):
             nonlocal accepted, sets_since_edge
             stats["steps"] += 1
-            if st["k"] == "rst":
+            if st["k"] == "rrst":
+                # read-domain reset: no effect on the queue
+                if st["l"] != R["rrst"]:
+                    R["rrst"] = st["l"]
+                    if st["l"] and R["rst"]:
+                        R["rrst_during_episode"] = True
+                    if st["l"]:
+                        stats["faults"]["read_reset"] = stats["faults"].get("read_reset", 0) + 1
+                        if dq:
+                            stats["probes"]["read_reset_while_holding"] = stats["probes"].get("read_reset_while_holding", 0) + 1
+                    drv.drive({"read.rst": st["l"]})
+            elif st["k"] == "rst":
                 if config["w_reset_less"] or st["l"] == R["rst"]:
                     pass
                 elif st["l"]:
@@ -196,6 +224,7 @@ def run_case(case):
                     dq.clear()
                     R["doomed"] = 1 if head is not None else 0
                     R["r_rst_seen"] = False
+                    R["rrst_during_episode"] = bool(R["rrst"])
                     if head is not None:
                         dq.append(head)
                         stats["probes"]["reset_with_buffered_head"] = stats["probes"].get("reset_with_buffered_head", 0) + 1
@@ -204,7 +233,12 @@ def run_case(case):
                     if R["reads_since"] < 9:
                         stats["probes"]["short_reset_unjudged"] = stats["probes"].get("short_reset_unjudged", 0) + 1
                         raise StopJudging()
-                    if not R["r_rst_seen"] and depth > 0:        # (a queue of depth 0 has no state to reset and no reset logic)
+                    if R["doomed"]:
+                        stats["probes"]["both_domains_in_reset_unjudged"] = stats["probes"].get("both_domains_in_reset_unjudged", 0) + 1
+                        raise StopJudging()      # both domains were in reset all along: the output register could not be cleared
+                    # (a queue of depth 0 has no state to reset and no reset logic; `r_rst` is a read-domain register, so it
+                    # cannot be shown while the read domain itself is held in reset)
+                    if not R["r_rst_seen"] and depth > 0 and not R["rrst_during_episode"]:
                         raise Violation("r_rst_not_asserted", i, {"note": "r_rst must be asserted for at least one read-domain "
                                                                           "cycle after the FIFO has been reset by the write domain"})
                     R["rst"], R["post_r"], R["post_w"] = 0, 0, 0
@@ -274,8 +308,9 @@ def run_case(case):
                         stats["probes"]["reads"] += 1
                     elif inp["r_en"]:
                         stats["faults"]["underrun"] += 1
-                    if R["doomed"]:
+                    if R["doomed"] and not R["rrst"]:
                         # the reset reaches the output stage through a read-domain register: by the second read edge under reset
+                        # (not counting edges at which the read domain itself is held in reset, where that register cannot act)
                         # whatever the output register held is gone, read or not
                         R["doomed"] += 1
                         if R["doomed"] > 2:
@@ -318,7 +353,7 @@ def run_case(case):
             return      # (only in a minimised replay: the reset is never released)
         # fair tail: writes stop, reader drains, clocks alternate
         if depth > 0:
-            tail = [{"k": "set", "v": {"w_en": 0, "r_en": 1}}]
+            tail = [{"k": "rrst", "l": 0}, {"k": "set", "v": {"w_en": 0, "r_en": 1}}]
             for _ in range(8 + 4 * depth):
                 for name in ("write", "read"):
                     tail.append({"k": "clk", "l": {name: 1 - lv[name]}})
